@@ -2,6 +2,7 @@ package props
 
 import (
 	"fmt"
+	"github.com/glycerine/zygomys/v9/zygo"
 	"math"
 	"strconv"
 	"strings"
@@ -266,6 +267,42 @@ func c06Run(c *core.Ctx, i int) *core.Result {
 	}
 	if va != vb || strings.Join(a.Trace, ",") != strings.Join(b.Trace, ",") {
 		res.Violate("twin:block-vs-prefix-form", fmt.Sprintf("{%s} evaluates to %s (trace %v) but its prefix form %s evaluates to %s (trace %v)", src, OutStr(oa), a.Trace, tree, OutStr(ob), b.Trace), res.Input)
+		return res
+	}
+	// the block reaches the infix parser while a macro is being expanded (macro bodies run in a duplicate of
+	// the interpreter): the translation must be the same one
+	m := NewSutRun(true)
+	m.Eval(c06Setup, 0)
+	om := m.Eval("(defmac viaexp9 [] (infixExpand {"+src+"})) (str (viaexp9))\n", 200000)
+	res.Evals++
+	res.Ev("blocks_translated_during_macro_expansion", 1)
+	if om.Panic != "" {
+		res.Violate("escaped-panic:"+om.Site, om.Panic, res.Input)
+		return res
+	}
+	gm := OutStr(om)
+	if om.Err == nil {
+		gm = strings.ReplaceAll(strings.TrimSuffix(strings.TrimPrefix(gm, `"`), `"`), `\"`, `"`)
+	}
+	if gm != tree {
+		res.Violate("tree:translated-during-macro-expansion", fmt.Sprintf("(defmac viaexp9 [] (infixExpand {%s})) (viaexp9) must give %s, got %s", src, tree, gm), res.Input)
+		return res
+	}
+	// and evaluated there: a macro that evaluates its block argument while expanding gives the block's value
+	// (judged when that value is a number or boolean, which evaluates to itself as the expansion)
+	if _, isInt := oa.Val.(*zygo.SexpInt); oa.Err == nil && (isInt || va == "true" || va == "false") && !strings.Contains(src, "=") {
+		e := NewSutRun(true)
+		e.Eval(c06Setup, 0)
+		oe := e.Eval("(defmac viaeval9 [blk9] (eval blk9)) (viaeval9 {"+src+"})\n", 200000)
+		res.Evals++
+		res.Ev("blocks_evaluated_during_macro_expansion", 1)
+		if oe.Panic != "" {
+			res.Violate("escaped-panic:"+oe.Site, oe.Panic, res.Input)
+			return res
+		}
+		if ve := OutStr(oe); oe.Err != nil || ve != va {
+			res.Violate("twin:block-evaluated-during-macro-expansion", fmt.Sprintf("(defmac viaeval9 [blk9] (eval blk9)) (viaeval9 {%s}) must give %s like the block itself, got %s", src, va, ve), res.Input)
+		}
 	}
 	return res
 }
@@ -583,6 +620,9 @@ func c06Sem(c *core.Ctx, i int, k int) *core.Result {
 			}
 		}
 		text = fmt.Sprintf("{n := 0; outer: for i := 0; i < %d; i++ { for j := 0; j < %d; j++ { if j == %d { continue outer }; if i == %d { break outer }; n++ } }; n}\n", A, B, J, I)
+		if r.N(2) == 0 { // the labelled loop is the first statement of its block
+			text = fmt.Sprintf("(def n 0) {outer: for i := 0; i < %d; i++ { for j := 0; j < %d; j++ { if j == %d { continue outer }; if i == %d { break outer }; n++ } }} n\n", A, B, J, I)
+		}
 		want = strconv.Itoa(cnt)
 		res.Ev("for_headers", 1)
 	case 8: // if / else chains
@@ -619,6 +659,12 @@ func c06Sem(c *core.Ctx, i int, k int) *core.Result {
 			}
 			want = fmt.Sprintf("([%s %s] [%s] [%s] 12)", one, one, strings.Join(tail, " "), strings.Join(mid, " "))
 		}
+	}
+	// a comment directly after the opening brace changes nothing
+	if at := strings.Index(text, "{"); at >= 0 && r.N(3) == 0 {
+		cm := []string{" // note\n ", " /* note */ ", "// a: b\n", " /* a: 1 */ // and more\n "}[r.N(4)]
+		text = text[:at+1] + cm + text[at+1:]
+		res.Ev("blocks_with_leading_comment", 1)
 	}
 	res.Input = text
 	res.Hash = core.HashOf(text)
